@@ -378,6 +378,17 @@ func Ops() []OpDef {
 			c.Begin()
 			return mres(c.N.SendConfigs([]string{"hostname x", "no shutdown"}, tmo(o)...))
 		}, Want: "|"})
+	// Open without in-channel login: returns as soon as the read loop is started (C06 only: it reads nothing, so
+	// there is nothing to stall)
+	add(OpDef{Name: "generic.Open", Kind: "open-plain", ErrClass: "connection",
+		Setup: func(c *OpCtx) error {
+			c.CLI = StdCLI("privilege-exec", false)
+			c.Tr = dev.NewFake(c.E, c.CLI)
+			var err error
+			c.G, err = generic.NewDriver("dev", BaseOpts(c.Tr, c.RD, c.TConn, 0)...)
+			return err
+		},
+		Call: func(c *OpCtx, _ time.Duration) (string, error) { c.Begin(); return "", c.G.Open() }})
 	add(OpDef{Name: "telnet.Open", Kind: "login-telnet", ErrClass: "timeout", Setup: loginSetup("telnet"),
 		Call: func(c *OpCtx, _ time.Duration) (string, error) { c.Begin(); return "", c.G.Open() }})
 	add(OpDef{Name: "ssh.Open", Kind: "login-ssh", ErrClass: "timeout", Setup: loginSetup("ssh"),
